@@ -111,6 +111,8 @@ func (w *c8world) probeFields() []zap.Field {
 		return []zap.Field{zap.Object("bad", c8failing{2}), zap.Int("next", 2)}
 	case 6:
 		return nil
+	case 8:
+		return []zap.Field{zap.Reflect("bad", make(chan int)), zap.Int("after", 1), zap.Reflect("good", c8refl{2, "y", nil})}
 	}
 	return []zap.Field{zap.Binary("b", []byte{1, 2, 3}), zap.Float64("f", 1.5), zap.Time("t", time.Unix(1700000000, 0).UTC()), zap.Any("any", []any{1, "two"})}
 }
@@ -150,6 +152,16 @@ func (w *c8world) history(kind, a int, lg *zap.Logger) {
 		if ce := lg.Check(zapcore.InfoLevel, "checked"); ce != nil {
 			ce.Write(zap.Int("a", a))
 		}
+	case 13:
+		// reflection that fails, alone or followed by more fields
+		switch a % 3 {
+		case 0:
+			lg.Info("unencodable reflected value", zap.Reflect("bad", make(chan int)))
+		case 1:
+			lg.Info("unencodable then encodable", zap.Any("bad", map[string]any{"f": func() {}}), zap.Reflect("good", c8refl{a, "g", nil}))
+		default:
+			lg.Info("encodable then unencodable", zap.Reflect("good", c8refl{a, "g", nil}), zap.Reflect("bad", make(chan int)), zap.Int("a", a))
+		}
 	case 12:
 		// an entry with a terminal hook attached to its (pooled) checked entry
 		w.hookWant++
@@ -161,7 +173,7 @@ type c8hook struct{ w *c8world }
 
 func (h c8hook) OnWrite(*zapcore.CheckedEntry, []zapcore.Field) { h.w.hookGot++ }
 
-const c8kinds = 13
+const c8kinds = 14
 
 func runC08(c *Ctx) {
 	g, r := c.G, c.R
@@ -187,7 +199,7 @@ func runC08(c *Ctx) {
 	}
 	w.probeSk = zsim.NewSimSink(r, "probe", 1+g.Draw(2), 11)
 	r.Label(unsafe.Pointer(w.probeSk), "probe")
-	w.recipe = g.Draw(8)
+	w.recipe = g.Draw(9)
 	w.level = pick(g, zapcore.InfoLevel, zapcore.ErrorLevel)
 	var popts []zap.Option
 	popts = append(popts, zap.WithClock(clk))
